@@ -13,8 +13,27 @@ ROOT = os.path.dirname(os.path.dirname(os.path.abspath(__file__)))
 REPO = os.environ.get("VERIF_REPO", "/repo")
 
 
+def cache_key():
+    """numba invalidates a cached kernel when the FILE THAT DEFINES IT changes, not when a function it calls from another file does (documented limitation): an edit of
+    util.py (is_null, _get_first_non_null, NumbaReductionOps: compiled INTO the kernels of numba.py / nanops.py / factorization.py) would be masked by a warm cache.
+    The cache directory is therefore keyed by the content of the modules whose jitted functions are called across files; a tree that differs there starts cold."""
+    h = hashlib.sha1()
+    for rel in ("groupby_lib/util.py", "groupby_lib/nanops.py"):
+        try: h.update(open(os.path.join(REPO, rel), "rb").read())
+        except OSError: h.update(b"?")
+    return h.hexdigest()[:10]
+
+
+def cache_root(): return os.path.join(ROOT, ".cache", "numba", cache_key())
+
+
+def cache_is_cold():
+    d = os.path.join(cache_root(), "r0")
+    return not (os.path.isdir(d) and any(f.endswith(".nbi") for _, _, fs in os.walk(d) for f in fs))
+
+
 def hygiene(rank=0):
-    os.environ["NUMBA_CACHE_DIR"] = os.path.join(ROOT, ".cache", "numba", f"r{rank}")
+    os.environ["NUMBA_CACHE_DIR"] = os.path.join(cache_root(), f"r{rank}")
     os.makedirs(os.environ["NUMBA_CACHE_DIR"], exist_ok=True)
     os.environ.setdefault("GROUPBY_LIB_VERIF", "1")
     os.environ.setdefault("NUMBA_NUM_THREADS", "2")      # 16 worker processes x numba's default 16 prange threads oversubscribes the machine 16-fold
